@@ -355,6 +355,9 @@ class SpecFun:
             out.append(app == self.zero(*extra))
         elif k == z3.Z3_OP_SEQ_UNIT:
             out.append(app == self.one(*(extra + [s.arg(0)])))
+            for c in getattr(self, 'consequences', ()):
+                # facts implied by the unit case (each is a lemma proved separately)
+                out.append(c(*(extra + [s.arg(0)])))
         elif k == z3.Z3_OP_SEQ_CONCAT:
             parts = [self.f(*(extra + [s.arg(i)])) for i in range(s.num_args())]
             acc = parts[0]
@@ -484,7 +487,24 @@ def _collect_concats(formulas, seen, out):
             stack.append(e.body())
 
 
+EXTRA_LEMMAS = []      # callables(formulas) -> list of lemma instances (each lemma is proved by induction elsewhere)
+
+
 def instantiate_axioms(formulas, rounds=5):
+    if EXTRA_LEMMAS and not getattr(instantiate_axioms, '_in_lemma', False):
+        extra = []
+        for fn in EXTRA_LEMMAS:
+            extra.extend(fn(formulas))
+        if extra:
+            instantiate_axioms._in_lemma = True
+            try:
+                return extra + instantiate_axioms(list(formulas) + extra, rounds)
+            finally:
+                instantiate_axioms._in_lemma = False
+    return _instantiate_axioms(formulas, rounds)
+
+
+def _instantiate_axioms(formulas, rounds=5):
     """Mechanical unfolding of the SpecFun axioms on the concat structure of the
     argument terms occurring in `formulas` (and in the unfolded axioms).  In addition every
     homomorphism is applied to every concatenation term of its argument sort that occurs
@@ -594,19 +614,28 @@ def prove_lemmas():
     return out
 
 
-def _unfold_only(formulas, rounds=4):
+def _unfold_only(formulas, rounds=5):
+    """defining (unfolding) axioms only -- used to prove the lemmas themselves"""
     seen, done, axioms, work = set(), set(), [], list(formulas)
+    extras = {}
+    concats = []
+    cseen = set()
     for _ in range(rounds):
         apps = []
         for f in work:
             _walk(f, seen, apps)
-        concats = []
-        _collect_concats(work, set(), concats)
-        for c in concats:
-            for sf in SpecFun.registry.values():
-                if sf.seq_sort == c.sort():
-                    for ex in ([()] if sf.nextra == 0 else [tuple(a.arg(i) for i in range(sf.nextra)) for s2, a in apps if s2 is sf]):
-                        apps.append((sf, sf.f(*(list(ex) + [c]))))
+        _collect_concats(work, cseen, concats)
+        for sf, app in apps:
+            ex = tuple(app.arg(i) for i in range(sf.nextra))
+            extras.setdefault(sf.name, {})[tuple(a.get_id() for a in ex)] = ex
+        for name, sf in SpecFun.registry.items():
+            if name not in extras:
+                continue
+            for c in concats:
+                if c.sort() != sf.seq_sort:
+                    continue
+                for ex in extras[name].values():
+                    apps.append((sf, sf.f(*(list(ex) + [c]))))
         new = []
         for sf, app in apps:
             if app.get_id() in done:
